@@ -213,3 +213,77 @@ class Frag(str):
         return not self.__eq__(other)
 
     __hash__ = str.__hash__
+
+
+class Template:
+    """Several fragments matched against one function with SHARED bindings of local names.
+
+        t = Template(func.node)                      # parameters and module-level names are literal
+        t.has('freq = _initialize(wordnet, smoothing)')      -> node or None; binds `freq` to the actual local name
+        t.actual('freq')                             -> the name used in the source ('freq' if unbound)
+        t.has('freq[pos][ss.id] += weight')          -> must now use the same actual name for `freq`
+
+    A fragment that does not match leaves the bindings unchanged.  `within=` restricts the search to a subtree."""
+
+    def __init__(self, node, fixed=()):
+        self.node = node
+        fx = set(fixed)
+        if isinstance(node, (ast.FunctionDef, ast.AsyncFunctionDef)):
+            a = node.args
+            fx |= {p.arg for p in a.posonlyargs + a.args + a.kwonlyargs}
+            if a.vararg:
+                fx.add(a.vararg.arg)
+            if a.kwarg:
+                fx.add(a.kwarg.arg)
+        self.literal = module_names(node) | fx
+        self.bind = {}
+
+    def actual(self, name):
+        return self.bind.get(name, name)
+
+    def all(self, frag, within=None):
+        """every node that matches the fragment under the current bindings (bindings are NOT extended)."""
+        kind, pn = _parse_fragment(frag)
+        out = []
+        if kind is None or kind == 'stmts':
+            return out
+        for n in ast.walk(within or self.node):
+            if kind == 'comp':
+                if not isinstance(n, _COMPS + (ast.DictComp,)):
+                    continue
+            elif kind == 'expr' and not isinstance(n, ast.expr):
+                continue
+            elif kind in ('stmt', 'header') and not isinstance(n, ast.stmt):
+                continue
+            b = dict(self.bind)
+            if _m(pn, n, b, self.literal, header=(kind == 'header')):
+                out.append((n, b))
+        return out
+
+    def has(self, frag, within=None, commit=True):
+        ms = self.all(frag, within)
+        if not ms:
+            return None
+        ms.sort(key=lambda x: (getattr(x[0], 'lineno', 0), getattr(x[0], 'col_offset', 0)))
+        n, b = ms[0]
+        if commit:
+            self.bind = b
+        return n
+
+    def text(self, frag):
+        """the fragment with pattern names replaced by the actual names (for messages / further norm() comparisons)"""
+        kind, pn = _parse_fragment(frag)
+        if kind is None:
+            return frag
+        import copy as _copy
+
+        class R(ast.NodeTransformer):
+            def visit_Name(s, node):  # noqa: N805
+                return ast.copy_location(ast.Name(id=self.bind.get(node.id, node.id), ctx=node.ctx), node)
+        t = frag
+        try:
+            if kind in ('expr', 'stmt'):
+                t = ' '.join(ast.unparse(R().visit(_copy.deepcopy(pn))).split())
+        except Exception:  # noqa: BLE001
+            pass
+        return t
